@@ -59,6 +59,38 @@ func loadControls(verif, id string) []control {
 			}
 		}
 	}
+	// behaviour-preserving refactors written by independent agents (refactors/<ID>-r<k>/): the checks of
+	// the property they were written for - and of every property listed in also_silent_for - must stay
+	// silent on them
+	rdirs, _ := filepath.Glob(filepath.Join(verif, "refactors", "*", "meta.json"))
+	sort.Strings(rdirs)
+	for _, m := range rdirs {
+		b, err := os.ReadFile(m)
+		if err != nil {
+			continue
+		}
+		var meta struct {
+			Property string   `json:"property"`
+			Also     []string `json:"also_silent_for"`
+			Status   string   `json:"status"`
+		}
+		if json.Unmarshal(b, &meta) != nil || meta.Status == "rejected" {
+			continue
+		}
+		applies := meta.Property == id
+		for _, a := range meta.Also {
+			if a == id {
+				applies = true
+			}
+		}
+		if !applies {
+			continue
+		}
+		pd, err := os.ReadFile(filepath.Join(filepath.Dir(m), "patch.diff"))
+		if err == nil {
+			out = append(out, control{Name: "refactor/" + filepath.Base(filepath.Dir(m)), Kind: "negative", diff: string(pd)})
+		}
+	}
 	return out
 }
 
